@@ -23,6 +23,10 @@ def plans(quick):
                  cover_limit=None, walks=0),
             dict(family='pair',
                  gen=dict(steps=5, slots=2, force=False, fail=False, restart=False), cover_limit=None, walks=1500, walk_len=6),
+            # one computation reached at different namespace depths by different configurations: served, not run again
+            dict(family='levels',
+                 gen=dict(steps=4, slots=1, lists=[['v2'], ['v4'], ['v1'], ['s12'], ['s21']], force=False, fail=False), cover_limit=150,
+                 walks=40, sim=dict(num=60, depth=10, force=False, fail=False)),
             dict(family='kinds',
                  gen=dict(steps=3, slots=1, lists=[['k1'], ['k2']], force=False, fail=False), cover_limit=80, walks=30,
                  sim=dict(num=60, depth=10, force=False, fail=False)),
